@@ -221,6 +221,9 @@ Lemma const_noop st pos last s e : good st -> In (NConst s e) ns -> const_known 
 Proof.
   intros Hg Hin Hk. destruct (Hg s e Hin Hk) as [v [c [Hv [Hs Hp]]]]. cbn [resolve_node].
   rewrite (closed_known_indep _ dummy_var e [] (asm_agree_pvar_dummy _ _ _) Hk). unfold cval in Hv. rewrite Hv.
+  (* F77: a failed constraint is an error on the last pass; a known constant never fails *)
+  try (replace (match v with VFailed => true | _ => false end) with false by (destruct v; try reflexivity; discriminate Hp);
+       rewrite andb_false_r).
   rewrite (nth_error_nth' _ _ VUnknown _ Hs). rewrite value_identical_refl.
   rewrite (set_nth_same_entry _ _ _ Hs). rewrite state_eta. reflexivity.
 Qed.
@@ -288,6 +291,7 @@ Proof.
     assert (s0 <> s) by (intro; subst; eapply label_not_const; eauto).
     rewrite nth_error_set_nth_other by assumption. exact (Hg s0 e0 Hin0 Hk0).
   - destruct (eval code_ops (pvar names st pos (negb last)) e []) as [[v c]|] eqn:E; [|discriminate].
+    try (match type of H with (if ?c then _ else _) = _ => destruct c; [discriminate H|] end).
     inversion H; subst; clear H. intros s0 e0 Hin0 Hk0. cbn [s_sym].
     destruct (Hg s0 e0 Hin0 Hk0) as [v0 [c0 [Hv [Hs Hp]]]].
     destruct (Nat.eq_dec s0 s) as [->|Hne].
@@ -325,7 +329,9 @@ Lemma plain_keeps last n st pos st' r pos' : plain n ->
 Proof.
   intros Hp H. destruct n as [s|s e|i src|width elems|k e|k e|k e]; try destruct Hp; cbn [resolve_node] in H.
   - destruct (address_at pos (negb last)) as [a|]; [|discriminate]. inversion H; subst; cbn [s_sym]; rewrite set_nth_length; auto.
-  - destruct (eval code_ops _ e []) as [[v c]|]; [|discriminate]. inversion H; subst; cbn [s_sym]; rewrite set_nth_length; auto.
+  - destruct (eval code_ops _ e []) as [[v c]|]; [|discriminate].
+    try (match type of H with (if ?c then _ else _) = _ => destruct c; [discriminate H|] end).
+    inversion H; subst; cbn [s_sym]; rewrite set_nth_length; auto.
   - destruct (eval code_ops _ e []) as [[v c]|]; [|discriminate].
     destruct (expect_error_or_bigint v) as [v'|]; [|discriminate].
     match type of H with match ?x with EErr => _ | EOk _ => _ end = _ => destruct x as [z|]; [|discriminate] end.
